@@ -19,7 +19,9 @@ RULE = (
     "forces, integrated with Moreau (dt in {0.01, 0.02}, 10..40 steps, speeds >= 0.1), exported with a frame rate in "
     "[1, 200], write_ascii True/False, contributions exported one by one and as a list. rod: a clamped rod "
     "(Quaternion / SE3 / R12 interpolation) solved statically in 2..6 load steps and exported at level 'centerline + "
-    "directors'. Non-trivial: at least two frames were exported and the exported body moved between them."
+    "directors' or at level 'volume' (rectangular or circular section, with and without volume_directors; end layers "
+    "compared with the nodal frames to 5e-2 because the control points come from an L2 projection, and the corners of "
+    "every layer compared exactly with the exported d2/d3). Non-trivial: at least two frames were exported and the exported body moved between them."
 )
 ASSUMPTIONS = [
     "files are read back with vtkXMLUnstructuredGridReader; a frame is matched to the solution row whose time equals "
@@ -41,7 +43,7 @@ LEVEL_NOTE = "trusted: VTK's XML reader; the harness geometry formulas"
 
 @st.composite
 def _case(draw):
-    kind = draw(st.sampled_from(["dynamic", "dynamic", "dynamic", "rod"]))
+    kind = draw(st.sampled_from(["dynamic", "dynamic", "dynamic", "rod", "rod"]))
     if kind == "rod":
         rs = draw(rodbuild.rod_spec(max_nel=3, allow_constraints=False))
         rs["mixed"] = False
@@ -49,7 +51,11 @@ def _case(draw):
         EI = min(rs["Fi"][1:])
         return {"kind": kind, "rod": rs, "nsteps": draw(st.integers(2, 6)), "fps": draw(gen.f(1.0, 12.0)),
                 "F": (np.array(draw(gen.unit_vec3())) * EI / rs["L"] ** 2 * draw(gen.f(0.5, 1.5))).tolist(),
-                "ascii": draw(st.booleans())}
+                "ascii": draw(st.booleans()),
+                # half of the rods are exported as volumes (the default level), with a rectangular or circular section
+                "volume": draw(st.one_of(st.none(), st.fixed_dictionaries({
+                    "rect": st.one_of(st.none(), st.tuples(gen.f(0.05, 0.5), gen.f(0.05, 0.5)).map(list), st.tuples(gen.f(0.05, 0.5), gen.f(0.05, 0.5)).map(list)),
+                    "wedge": st.booleans(), "directors": st.sampled_from([True, True, False]), "radius": gen.f(0.02, 0.3)})))}
     ball = draw(build.rigid_body(unit=True))
     ball["r"] = [draw(gen.f(-0.3, 0.3)), draw(gen.f(-0.3, 0.3)), 0.3 + draw(gen.f(0.0, 0.5))]
     ball["v"] = [draw(gen.f(0.3, 1.5)), draw(gen.f(-1, 1)), draw(gen.f(-1.0, -0.1))]
@@ -348,6 +354,64 @@ def _lagrange(nodes_x, nodes_y, x):
     return out
 
 
+def _rod_volume(spec, res, feats, rod, vol, fr, q, n, site):
+    """Volume export: layers of Bezier control points along the rod. The control points come from an L2 projection of
+    the sampled frames, so they only approximate the rod's geometry (loose tolerance at the two end layers); the
+    relation between the points of one layer and the exported director data is exact up to the single-precision storage."""
+    ppl = rod.cross_section.vtk_points_per_layer
+    LOOSE = 5e-2
+    for k, p in fr:
+        pts, cd, pd = read_vtu(p)
+        qk = q[k][rod.qDOF]
+        res.ok()
+        if len(pts) % ppl != 0 or len(pts) == 0:
+            res.fail("points_equal_geometry", site, None, feats, f"{len(pts)} points are not whole layers of {ppl}")
+            continue
+        r_nodes = qk[: 3 * n].reshape(3, n).T
+        P_nodes = qk[3 * n:].reshape(4, n).T
+        layers = pts.reshape(-1, ppl, 3)
+        has_dirs = all(nm in pd for nm in ("d1", "d2", "d3"))
+        if vol["directors"] and not has_dirs:
+            res.fail("vectors_equal_state:d", site, None, feats, "volume_directors requested but d1/d2/d3 are not in the file")
+            continue
+        for end, node in ((0, 0), (-1, -1)):
+            R = gen.quat_to_R(P_nodes[node])
+            L = layers[end]
+            if vol["rect"]:
+                w, h = vol["rect"]
+                want = np.array([r_nodes[node] + R @ np.array([0.0, sy * w / 2, sz * h / 2])
+                                 for sy, sz in ((-1, -1), (1, -1), (1, 1), (-1, 1))])
+                err = float(np.max(np.abs(L - want)))
+                res.ok()
+                if err > LOOSE * (1 + max(w, h)):
+                    res.fail("points_equal_geometry", site, err, feats, f"row {k} end layer {end}: corners off by {err:.3e}")
+            else:
+                # control points of the circle lie in the cross-section plane, within two radii of the centreline
+                d = L - r_nodes[node]
+                res.ok()
+                if float(np.max(np.abs(d @ R[:, 0]))) > LOOSE * (1 + vol["radius"]) or float(np.max(np.linalg.norm(d, axis=1))) > 2.2 * vol["radius"] + LOOSE:
+                    res.fail("points_equal_geometry", site, float(np.max(np.linalg.norm(d, axis=1))), feats,
+                             f"row {k} end layer {end}: control points leave the cross-section plane/disc")
+            if has_dirs:
+                for nm, col in (("d1", 0), ("d2", 1), ("d3", 2)):
+                    got = pd[nm].reshape(-1, ppl, 3)[end]
+                    err = float(np.max(np.abs(got - R[:, col])))
+                    res.ok()
+                    if err > LOOSE:
+                        res.fail("vectors_equal_state:" + nm, site, err, feats, f"row {k} end layer {end}: {nm} off by {err:.3e}")
+        if vol["rect"] and has_dirs:
+            # exact: the width is laid out along the exported d2, the height along the exported d3, in every layer
+            w, h = vol["rect"]
+            D2, D3 = pd["d2"].reshape(-1, ppl, 3), pd["d3"].reshape(-1, ppl, 3)
+            e2 = float(np.max(np.abs((layers[:, 1] - layers[:, 0]) / w - D2[:, 0])))
+            e3 = float(np.max(np.abs((layers[:, 3] - layers[:, 0]) / h - D3[:, 0])))
+            res.ok()
+            # files store single-precision coordinates: the quotient carries their rounding divided by the side length
+            if max(e2, e3) > 1e-6 + 1e-6 * (1 + float(np.max(np.abs(pts)))) / min(w, h):
+                res.fail("vectors_equal_state:d2d3_vs_points", site, max(e2, e3), feats,
+                         f"row {k}: exported d2/d3 differ from the directions the section corners are laid out along by {max(e2, e3):.3e}")
+
+
 def _rod(spec, res, feats, tmp, Export):
     from cardillo.discrete import Frame
     from cardillo.forces import Force
@@ -368,7 +432,17 @@ def _rod(spec, res, feats, tmp, Export):
     if len(sol.t) != spec["nsteps"] + 1:
         res.inconclusive += 1
         return
-    rod._export_dict["level"] = "centerline + directors"
+    vol = spec.get("volume")
+    if vol:
+        from cardillo.rods import RectangularCrossSection, CircularCrossSection
+
+        # the section only matters for the exported geometry (inertia and stiffness were given explicitly)
+        rod.cross_section = (RectangularCrossSection(*vol["rect"]) if vol["rect"]
+                             else CircularCrossSection(vol["radius"], export_as_wedge=vol["wedge"]))
+        rod._export_dict["level"] = "volume"
+        rod._export_dict["volume_directors"] = vol["directors"]
+    else:
+        rod._export_dict["level"] = "centerline + directors"
     with quiet():
         e = Export(tmp, "out", True, spec["fps"], sol, write_ascii=spec["ascii"])
         e.export_contr(rod)
@@ -376,6 +450,12 @@ def _rod(spec, res, feats, tmp, Export):
     t, q = np.asarray(sol.t), np.asarray(sol.q)
     site = f"rod[{rs['interp']}]"
     fr = _frames(res, site, feats, folder, "rod", t)
+    if vol:
+        _rod_volume(spec, res, feats, rod, vol, fr, q, n, site + ".volume")
+        moved = len(fr) >= 2 and float(np.max(np.abs(q[fr[-1][0]] - q[fr[0][0]]))) > 1e-3
+        res.nontrivial = len(fr) >= 2 and moved
+        res.label("frames>=2" if len(fr) >= 2 else "frames<2", site + ".volume")
+        return
     num = rod._export_dict.get("num_frames")
     for k, p in fr:
         pts, cd, pd = read_vtu(p)
